@@ -19,7 +19,7 @@ Symbolic (tier N position checker + induction over stores and mask sweeps):
 * `C04_fields`        : the fields reported by the model builder equal the forced options, level
                         defaults to Q, mode defaults to the classifier's choice.
 -/
-import FastQr.Finite.Tables
+import FastQr.Finite.TablesFormat
 import FastQr.Finite.Template
 import FastQr.Proofs.Lift
 import FastQr.Model.Build
